@@ -6,9 +6,7 @@ cd "$(dirname "$0")"
 export CARGO_NET_OFFLINE=true
 python3 tools/extract.py
 (cd lean && lake build Qwt qwtdriver)
-for m in $(python3 -c "import json;print(' '.join('Qwt.Props.'+k for k,v in json.load(open('lean/obligations.json')).items() if v.get('theorems') or v.get('partial')))"); do
-  (cd lean && lake build "$m")
-done
+(cd lean && lake build $(python3 -c "import json;o=json.load(open('obligations.json'));print(' '.join(sorted({m for k,v in o.items() if v.get('theorems') or v.get('partial') for m in (v.get('modules') or ['Qwt.Props.'+k])})))"))
 (cd harness && cargo build --offline --target-dir target/pf --release)
 (cd harness && cargo build --offline --target-dir target/pf --profile verifdbg)
 (cd harness && cargo build --offline --target-dir target/nopf --release --no-default-features)
